@@ -319,7 +319,7 @@ class ScriptedClient:
 class CallRec:
     __slots__ = ("step", "id", "method", "outcome", "value", "exc", "fired", "commands",
                  "sent", "received", "kinds", "socks_created", "pieces", "t0", "t1",
-                 "ev0", "ev1", "extra")
+                 "ev0", "ev1", "extra", "raw")
 
     def enc_outcome(self):
         if self.outcome == "return":
@@ -403,6 +403,7 @@ def run_call(world, res, step_no, fn, method, faults=None, net=None, hooks=()):
     """Run one public call at the call boundary; records outcome; returns CallRec."""
     ctx = world.begin_call(step_no, method, faults, net)
     rec = CallRec()
+    rec.raw = None
     rec.step, rec.id, rec.method = step_no, ctx.id, method
     rec.t0 = world.clock.now
     rec.ev0 = len(world.events)
@@ -420,6 +421,11 @@ def run_call(world, res, step_no, fn, method, faults=None, net=None, hooks=()):
     sys.setrecursionlimit(depth + CALL_STACK_HEADROOM)
     try:
         rec.value = fn()
+        if type(rec.value) is dict:
+            # the record keeps what was returned at that moment: a dict the library (or the application, see the
+            # "mutate" step) changes later must not rewrite history
+            rec.raw = rec.value
+            rec.value = dict(rec.value)
         rec.exc = None
         rec.outcome = "return"
     except BaseException as e:  # the call boundary: what a caller would see
@@ -595,7 +601,7 @@ def execute(scn, hooks=()):
                 # the recorded result keeps a copy of what was returned
                 rec0 = res.by_step(st["ref"])
                 if rec0 is not None and rec0.outcome == "return":
-                    orig = rec0.value
+                    orig = rec0.raw if rec0.raw is not None else rec0.value
                     rec0.value = _copy.deepcopy(orig)
                     _mutate_in_place(orig[0] if isinstance(orig, tuple) and len(orig) == 2 else orig)
             elif t == "recache":
